@@ -270,7 +270,7 @@ class Verifier:
         res['assumptions'] = sorted(self.assumptions); res['inlined'] = sorted(self.inlined); res['bounded'] = list(self.bounded)
         res['seconds'] = round(time.time() - t0, 3)
         if res['status'] == 'ok':
-            missing = [k for k in c.ghost_after if (c.key, k) not in self.ghosts_fired]
+            missing = [k for k in c.ghost_after if (c.key, k) not in self.ghosts_fired] + ['abstract:' + k for k in c.abstract if (c.key, 'abstract:' + k) not in self.ghosts_fired]
             if missing:
                 res['status'] = 'stale'; res['error'] = 'ghost update(s) no longer attach to any statement: %s' % missing
         # vacuity: at least one path must reach a normal or declared-exceptional exit
